@@ -5,6 +5,7 @@
 import XC.Model.C44
 import XC.Proofs.C46_CS
 import XC.Proofs.C44_PW
+import XC.Proofs.C44_MDC
 namespace XC.C44
 open XC
 
@@ -162,5 +163,104 @@ theorem mdc_seal_accepted (H : Bytes → Bytes) (pre pt : Bytes) :
     simp [mdcSeal, List.append_assoc]
   rw [this]
   exact (mdc_accept_iff H pre _).2 rfl
+
+/-- **mdc_window**: for EVERY short-read schedule `script` of the underlying reader and EVERY sequence of
+    caller buffer sizes `ms`, on a body `D` of at least 22 bytes: no Read fails; the bytes delivered by
+    the Reads (followed by what `Close` drains) are `D` without its last 22 bytes — the trailer window is
+    never delivered as plaintext; and `Close` returns exactly the check of those last 22 bytes against the
+    hash of prefix ‖ (D minus its last 22 bytes). -/
+theorem mdc_window (H : Bytes → Bytes) (pre D : Bytes) (script ms : List Nat) (hD : 22 ≤ D.length) :
+    (mdcSession H pre {} ⟨D, script⟩ ms).2 =
+      mdcCheck H pre { trailer := D.drop (D.length - 22), hashed := D.take (D.length - 22) } ∧
+    (∀ p ∈ (mdcSession H pre {} ⟨D, script⟩ ms).1, p.2 ≠ .ueof) ∧
+    ∃ rest, ((mdcSession H pre {} ⟨D, script⟩ ms).1.map (·.1)).flatten ++ rest = D.take (D.length - 22) := by
+  have := mdc_session_inv H pre D ms {} ⟨D, script⟩ [] (Inv.init D script) hD
+  simpa [mdcTrailerSize] using this
+
+/-- … hence, for every read pattern: `Close` = ok ⇔ the body ends with `D3 14 ‖ H(prefix ‖ plaintext ‖ D3 14)` -/
+theorem mdc_close_ok_iff (H : Bytes → Bytes) (pre D : Bytes) (script ms : List Nat) (hD : 22 ≤ D.length) :
+    (mdcSession H pre {} ⟨D, script⟩ ms).2 = .ok ↔
+      D.drop (D.length - 22) = mdcTag ++ H (pre ++ D.take (D.length - 22) ++ mdcTag) := by
+  rw [(mdc_window H pre D script ms hD).1]
+  exact mdc_accept_iff H pre _
+
+/-! ## v4 signature layout -/
+
+theorem natToBE_len (n v : Nat) : (natToBE n v).length = n := by simp [natToBE, natToLE_length]
+
+/-- **sig_trailer_layout**: the hash suffix is `04 type pk hash ‖ len16(hashed) ‖ hashed area ‖ 04 ff ‖ len32`,
+    where the hashed area is `05 02 ctime32 ‖ 09 10 issuer64` (16 octets) and the final length counts
+    everything before the 6-octet trailer (22 = 6 + 16). -/
+theorem sig_trailer_layout (st pk hid : UInt8) (ct iss : Nat) :
+    let suf := sigHashSuffix st pk hid ct iss
+    suf.length = 28 ∧
+    suf.take 6 = [4, st, pk, hid, 0, 16] ∧
+    (suf.drop 6).take 16 = sigHashedArea ct iss ∧
+    suf.drop 22 = [4, 0xff, 0, 0, 0, 22] := by
+  have h4 : (natToBE 4 ct).length = 4 := natToBE_len 4 ct
+  have h8 : (natToBE 8 iss).length = 8 := natToBE_len 8 iss
+  have hh : (sigHashedArea ct iss).length = 16 := by
+    simp [sigHashedArea, subpacket, h4, h8]
+  have e2 : natToBE 2 16 = [0, 16] := by decide
+  have e4 : natToBE 4 22 = [0, 0, 0, 22] := by decide
+  simp only [sigHashSuffix, hh, e2, e4]
+  refine ⟨by simp [hh], by simp, ?_, ?_⟩
+  · simp [hh]
+  · simp only [List.append_assoc, List.cons_append, List.nil_append]
+    have : (4 :: st :: pk :: hid :: 0 :: 16 :: (sigHashedArea ct iss ++ [4, 0xff, 0, 0, 0, 22])) =
+        ([4, st, pk, hid, 0, 16] ++ sigHashedArea ct iss) ++ [4, 0xff, 0, 0, 0, 22] := by simp
+    rw [this, List.drop_left' (by simp [hh])]
+
+/-! ## the packet grammar ReadMessage accepts -/
+
+theorem readMessage_pkesks (n k : Nat) (rest : List Tok) :
+    readMessage true k (List.replicate n Tok.pkesk ++ rest) = readMessage true (k + n) rest := by
+  induction n generalizing k with
+  | zero => simp
+  | succ n ih =>
+    rw [List.replicate_succ, List.cons_append, readMessage]
+    simp only [tnext, ↓reduceIte]
+    rw [ih]; congr 1; omega
+
+theorem readSigned_body (enc signed compressed : Bool) (tail : List Tok) :
+    readSigned enc false ((if compressed then [Tok.comp] ++ signedBody signed ++ [Tok.close] else signedBody signed) ++ tail) =
+      .ok enc signed signed := by
+  cases compressed <;> cases signed <;>
+    simp [signedBody, readSigned, tnext, afterLiteral]
+
+/-- **signed_message_grammar**: every packet sequence the writers emit — `SymmetricallyEncrypt`
+    (SKESK, encrypted data [compressed] literal), `Encrypt` (n ≥ 1 PKESKs, encrypted data, [one-pass
+    signature] literal [signature]), `Sign` (one-pass signature, literal, signature) — is accepted by the
+    `ReadMessage` acceptor, with the encrypted / signed / verified flags the writer intended. -/
+theorem signed_message_grammar (nrcpt : Nat) (signed compressed : Bool) (h : 1 ≤ nrcpt) :
+    readMessage true 0 (writerShape "sym" nrcpt signed compressed) = .ok true signed signed ∧
+    readMessage true 0 (writerShape "pk" nrcpt signed compressed) = .ok true signed signed ∧
+    readMessage true 0 (writerShape "sign" nrcpt signed compressed) = .ok false true true := by
+  refine ⟨?_, ?_, ?_⟩
+  · have e : writerShape "sym" nrcpt signed compressed =
+        Tok.skesk :: Tok.seipd :: ((if compressed then [Tok.comp] ++ signedBody signed ++ [Tok.close] else signedBody signed) ++ [Tok.close]) := by
+      simp [writerShape]
+    rw [e, readMessage]; simp only [tnext]
+    rw [readMessage]; simp only [tnext]
+    simpa using readSigned_body true signed compressed [Tok.close]
+  · have e : writerShape "pk" nrcpt signed compressed =
+        List.replicate nrcpt Tok.pkesk ++ (Tok.seipd :: ((if compressed then [Tok.comp] ++ signedBody signed ++ [Tok.close] else signedBody signed) ++ [Tok.close])) := by
+      simp [writerShape]
+    rw [e, readMessage_pkesks, readMessage]; simp only [tnext]
+    have : ((0 + nrcpt == 0) || !true) = false := by simp; omega
+    simp only [this, Bool.false_eq_true, ↓reduceIte]
+    exact readSigned_body true signed compressed [Tok.close]
+  · have e : writerShape "sign" nrcpt signed compressed = [Tok.ops true, Tok.lit, Tok.sig] := by
+      simp [writerShape, signedBody]
+    rw [e, readMessage]; simp [tnext, readSigned, afterLiteral]
+
+/-- without usable key material an encrypted message is refused, and key packets followed by
+    unencrypted data are refused -/
+theorem grammar_rejects (nrcpt : Nat) (signed compressed : Bool) :
+    readMessage false 0 (writerShape "sym" nrcpt signed compressed) = .err ∧
+    readMessage true 0 (Tok.skesk :: signedBody signed) = .err := by
+  constructor
+  · simp [writerShape, readMessage, tnext]
+  · cases signed <;> simp [signedBody, readMessage, tnext]
 
 end XC.C44
